@@ -190,22 +190,25 @@ let is_err_closing tree =
     | t -> parse_errtree t in
   if Direct.is_err_closing e then "1" else "0"
 
+(* the models ignore the cut fields: lines that differ only there share one evaluation *)
+let memo : (string, string) Hashtbl.t = Hashtbl.create 4096
+let memoize key f =
+  match Hashtbl.find_opt memo key with
+  | Some v -> v
+  | None -> let v = f () in Hashtbl.replace memo key v; v
+let rt f recs = memoize ("R\t" ^ f ^ "\t" ^ recs) (fun () -> round_trip (parse_framing f) (parse_recs recs))
+let rv f stream = memoize ("V\t" ^ f ^ "\t" ^ stream) (fun () -> recv_only (parse_framing f) stream)
+
 let () =
   iter_lines stdin (fun ln l ->
     try
       match split_on '\t' l with
-      | ["R"; f; _cuts; recs; obs] ->
-        report_case ln ~expected:(round_trip (parse_framing f) (parse_recs recs)) ~got:obs
-      | ["RX"; f; recs; obs] ->
-        report_case ln ~expected:(round_trip (parse_framing f) (parse_recs recs)) ~got:obs
-      | ["RK"; f; _k; recs; obs] ->
-        report_case ln ~expected:(round_trip (parse_framing f) (parse_recs recs)) ~got:obs
-      | ["V"; f; _cuts; stream; obs] ->
-        report_case ln ~expected:(recv_only (parse_framing f) stream) ~got:obs
-      | ["VX"; f; stream; obs] ->
-        report_case ln ~expected:(recv_only (parse_framing f) stream) ~got:obs
-      | ["VK"; f; _k; stream; obs] ->
-        report_case ln ~expected:(recv_only (parse_framing f) stream) ~got:obs
+      | ["R"; f; _cuts; recs; obs] -> report_case ln ~expected:(rt f recs) ~got:obs
+      | ["RX"; f; recs; obs] -> report_case ln ~expected:(rt f recs) ~got:obs
+      | ["RK"; f; _k; recs; obs] -> report_case ln ~expected:(rt f recs) ~got:obs
+      | ["V"; f; _cuts; stream; obs] -> report_case ln ~expected:(rv f stream) ~got:obs
+      | ["VX"; f; stream; obs] -> report_case ln ~expected:(rv f stream) ~got:obs
+      | ["VK"; f; _k; stream; obs] -> report_case ln ~expected:(rv f stream) ~got:obs
       | ["D"; recs; obs] ->
         report_case ln ~expected:(direct (parse_recs recs)) ~got:obs
       | ["I"; tree; obs] ->
